@@ -44,6 +44,8 @@ type Ctx struct {
 	clause string
 	seen   map[string]bool
 	Extra  map[string]interface{}
+
+	controlFailures []string
 }
 
 func NewCtx(p *Prog, prop, tier string) *Ctx {
@@ -93,6 +95,24 @@ func (c *Ctx) Check(ok bool, construct, rule string, pos token.Pos, passDetail, 
 		c.Fail(construct, rule, pos, failDetail)
 	}
 	return ok
+}
+
+// ControlFailed records a positive control on which the rule stayed silent. This is a defect of the
+// checker, not of the analysed code: it makes the run exit 2 (internal error) unless real violations
+// were found as well.
+func (c *Ctx) ControlFailed(name, detail string) {
+	c.controlFailures = append(c.controlFailures, name+": "+detail)
+}
+
+// Merge appends the obligations of a sub-run (another architecture, an overlay) under a key prefix.
+func (c *Ctx) Merge(prefix string, sub *Ctx) {
+	for _, o := range sub.Obs {
+		o.Key = prefix + o.Key
+		c.add(o)
+	}
+	for _, n := range sub.Notes {
+		c.Notes = append(c.Notes, prefix+" "+n)
+	}
 }
 
 // Note adds an informational line to the evidence.
@@ -224,7 +244,7 @@ func (c *Ctx) Finish(meta PropMeta, verifDir string, start time.Time, cmdline st
 			discharged++
 			fmt.Printf("ok        %s [%s] %s\n", o.Key, o.Rule, o.Detail)
 		default:
-			if k, ok := knownByKey[o.Key]; ok && o.Status == Violated {
+			if k, ok := knownByKey[strings.TrimPrefix(o.Key, "386:")]; ok && o.Status == Violated {
 				o.Known = k.What
 				fmt.Printf("known     %s [%s] %s (%s)\n", o.Key, o.Rule, o.Detail, o.Pos)
 				fmt.Printf("KNOWN-FINDING: property=%s %s\n", c.Prop, k.What)
@@ -318,8 +338,14 @@ func (c *Ctx) Finish(meta PropMeta, verifDir string, start time.Time, cmdline st
 		fmt.Println("internal error: no obligations were generated")
 		return 2
 	}
+	for _, cf := range c.controlFailures {
+		fmt.Println("internal error: positive control failed: " + cf)
+	}
 	if violations > 0 {
 		return 1
+	}
+	if len(c.controlFailures) > 0 {
+		return 2
 	}
 	return 0
 }
